@@ -6,15 +6,17 @@
      kind "load" : an abstract MPD shape, one abstract damage of the asset directory, nesting depth, number of MPDs.
    BEHAVIOURS: for "fetch" the mirroring state machine (fetch MPD, per Representation initialization, per segment; fault; the
    next run) over the abstract files {mpd} \cup Reps \X {init, first, mid, last}; Variant = "spec" is the mirror tool the property
-   text describes (atomic downloads, --force overwrites, every failure reported), Variant = "code" is fetcher.go as written
-   (a failed body leaves the partial file, an existing file is never overwritten, the failure of the last counted segment is not
-   logged, startNumber other than 0/1 and 32-bit overflow lose segments) - the invariants hold for "spec" and TLC finds the
-   counterexamples for "code" (expected-violation configurations).  For "load" one step chooses any outcome in
+   text describes (atomic downloads, --force overwrites, every failure reported, result error or warning), Variant = "code" is
+   fetcher.go as it is now (after a355798, 2447055, fd3796b, 68706af: the same, but a failed segment never makes Fetch return an
+   error - a refinement of "spec"), Variant = "orig" is fetcher.go as first written (a failed body leaves the partial file, an
+   existing file is never overwritten, the failure of the last counted segment is not logged, startNumber other than 0/1 and
+   32-bit overflow lose segments) - the invariants hold for "spec" and "code", and TLC finds the counterexamples for "orig"
+   (expected-violation configurations AssetMirror_orig_*, kept as history).  For "load" one step chooses any outcome in
    AssetMirrorOps!Accepted.                                                                                                  *)
 EXTENDS AssetMirrorOps, TLC, Json
 
 CONSTANTS Tier,      \* "quick" | "thorough": size of the scenario space
-          Variant    \* "spec" | "code"
+          Variant    \* "spec" | "code" | "orig"
 
 \* ------------------------------------------------------------------ shapes
 Default == [v |-> "numdur", a |-> "numdur", sn |-> 1, sub |-> "id", lvl |-> "as", nv |-> 1, base |-> "none", big |-> "no",
@@ -120,8 +122,8 @@ Order(sh) == LET RS == Reps(sh)
              IN << <<"mpd", "-">> >> \o a \o seqOf("v1") \o v2
 Force == sc.plan[step] = "force"
 FaultOn(f) == step = 1 /\ sc.fault.kind # "none" /\ <<sc.fault.rep, sc.fault.pos>> = f
-\* "code": segments the arithmetic of fetcher.go never asks for (startNumber beyond the count, 32-bit overflow)
-Lost(f) == /\ Variant = "code" /\ f[2] \in {"mid", "last"}
+\* "orig": segments the arithmetic of fetcher.go never asked for (startNumber beyond the count, 32-bit overflow)
+Lost(f) == /\ Variant = "orig" /\ f[2] \in {"mid", "last"}
            /\ \/ (sc.shape.sn = 7 /\ NumberMode(IF f[1] = "a" THEN sc.shape.a ELSE sc.shape.v))
               \/ (sc.shape.big # "no" /\ f[1] # "a" /\ sc.shape.v = "numdur")
 
@@ -141,17 +143,17 @@ FetchOne ==
    /\ pc = "run" /\ todo # <<>>
    /\ LET f == Head(todo)
           exists == mir[f] # 0
-          skip == exists /\ (~Force \/ Variant = "code")      \* code: downloadToFile returns when the file exists, force or not
+          skip == exists /\ (~Force \/ Variant = "orig")      \* orig: downloadToFile returned when the file existed, force or not
           isMpd == f[1] = "mpd"
       IN IF Lost(f) THEN /\ todo' = Tail(todo) /\ UNCHANGED <<mir, good, reqs, failed, rep, res, pc>>
          ELSE IF skip THEN /\ todo' = Tail(todo) /\ UNCHANGED <<mir, good, reqs, failed, rep, res, pc>>
          ELSE /\ reqs' = Append(reqs, f)
               /\ IF FaultOn(f)
                  THEN /\ failed' = failed \cup {f}
-                      /\ mir' = IF Variant = "code" /\ sc.fault.kind \in {"trunc", "stall"} THEN [mir EXCEPT ![f] = -1] ELSE mir
-                      /\ good' = IF Variant = "code" /\ sc.fault.kind \in {"trunc", "stall"} THEN good \ {f} ELSE good
-                      /\ rep' = IF Variant = "code" /\ f[2] = "last" /\ NumberMode(IF f[1] = "a" THEN sc.shape.a ELSE sc.shape.v)
-                                THEN rep ELSE rep \cup {f}     \* code: "if err != nil && i < nrSegments" skips the last counted number
+                      /\ mir' = IF Variant = "orig" /\ sc.fault.kind \in {"trunc", "stall"} THEN [mir EXCEPT ![f] = -1] ELSE mir
+                      /\ good' = IF Variant = "orig" /\ sc.fault.kind \in {"trunc", "stall"} THEN good \ {f} ELSE good
+                      /\ rep' = IF Variant = "orig" /\ f[2] = "last" /\ NumberMode(IF f[1] = "a" THEN sc.shape.a ELSE sc.shape.v)
+                                THEN rep ELSE rep \cup {f}     \* orig: "if err != nil && i < nrSegments" skipped the last counted number
                       /\ IF isMpd THEN pc' = "between" /\ res' = "err" /\ todo' = <<>>
                          ELSE pc' = pc /\ res' = res /\ todo' = Tail(todo)
                  ELSE /\ mir' = [mir EXCEPT ![f] = ver[f]] /\ good' = good \cup {f}
@@ -160,7 +162,7 @@ FetchOne ==
 
 \* the run ends: with failures the result may be an error or a success with warnings (both readings of X05.report)
 EndRun == /\ pc = "run" /\ todo = <<>>
-          /\ res' \in (IF failed = {} THEN {"ok"} ELSE {"ok", "err"})
+          /\ res' \in (IF failed = {} \/ Variant = "code" THEN {"ok"} ELSE {"ok", "err"})   \* code: segment failures are only warned
           /\ pc' = "between"
           /\ UNCHANGED <<sc, step, todo, ver, mir, good, good0, reqs, failed, rep, out>>
 
